@@ -47,6 +47,8 @@ def main():
         ratio = sp.size_ratio(cs["a"]["u"], cs["b"])
         if ratio is None or len(res["m"]) != 3: continue
         want = frac(cs["a"]["m"]) * ratio; got = frac(res["m"])
+        if want != 0 and not (Fraction(1, 10**200) < abs(want) < Fraction(10**200)):
+            stats["outside_float_range"] = stats.get("outside_float_range", 0) + 1; continue      # underflow / overflow of the number format
         tol = Fraction(1, 10**5) * deg
         if inf["diag"] == 0: stats["ship_certified"] += 1
         if abs(got - want) <= tol * abs(want):
